@@ -104,6 +104,7 @@ func checkTopics(c TopicsCase, o *vcore.Obs) error {
 	var closing atomic.Int32 // subscribers currently inside Close
 	var overlap atomic.Bool  // a Close overlapped an outstanding Publish
 	var publishing atomic.Int32
+	var churned atomic.Int32 // subscriptions opened and closed while publishers were at work
 
 	checkOrder := func(name string, got []int) {
 		// per publisher the sequence numbers arrive in publish order
@@ -141,6 +142,23 @@ func checkTopics(c TopicsCase, o *vcore.Obs) error {
 					fail("%s: Handle returned nil", name)
 				}
 				checkOrder(name, got)
+			}()
+		case "churn", "churn-sendlast":
+			// subscribes WHILE the publishers are at work, takes what is there, closes, and does it again
+			wg.Add(1)
+			go func() {
+				defer wg.Done()
+				for round := 0; round <= sc.K*4 && ctx.Err() == nil; round++ {
+					sub := tp.Subscribe(sc.Kind == "churn-sendlast")
+					tctx, tcancel := context.WithTimeout(ctx, 200*time.Microsecond)
+					_, _ = sub.Next(tctx)
+					tcancel()
+					if sc.PauseUs > 0 {
+						time.Sleep(time.Duration(sc.PauseUs) * time.Microsecond / 10)
+					}
+					sub.Close()
+					churned.Add(1)
+				}
 			}()
 		default:
 			sub := tp.Subscribe(sc.Kind == "sendlast")
@@ -230,6 +248,7 @@ func checkTopics(c TopicsCase, o *vcore.Obs) error {
 	}
 	o.NonTrivial(overlap.Load())
 	o.ClassIf(overlap.Load(), "close-while-publish-outstanding")
+	o.ClassIf(churned.Load() > 0, "subscribed-while-publishing")
 	for _, s := range c.Subs {
 		o.Class("sub-" + s.Kind)
 	}
@@ -244,13 +263,13 @@ func ctxDone() context.Context {
 
 func TestC17Topics(t *testing.T) {
 	vcore.Run(t, vcore.Config{Property: "C17", Inflight: true,
-		Rule: "generated topic scenarios run with real goroutines under the race detector: 1-4 subscribers with scripts {receive k then close, close immediately, Handle whose callback fails after k, subscribe(sendLast), close twice, close from another goroutine} with generated pauses, 1-2 publishers x 1-30 messages; every operation must return (wedges are confirmed from two goroutine dumps 1 s apart), per-publisher order preserved, nothing delivered after Close; non-trivial = a Close overlapped an outstanding Publish"},
+		Rule: "generated topic scenarios run with real goroutines under the race detector: 1-4 subscribers with scripts {receive k then close, close immediately, Handle whose callback fails after k, subscribe(sendLast), close twice, close from another goroutine, subscribe(with and without sendLast)/take/close over and over while the publishers are at work} with generated pauses, 1-2 publishers x 1-30 messages; every operation must return (wedges are confirmed from two goroutine dumps 1 s apart), per-publisher order preserved, nothing delivered after Close; non-trivial = a Close overlapped an outstanding Publish"},
 		func(t *rapid.T) TopicsCase {
 			var c TopicsCase
 			ns := rapid.IntRange(1, 4).Draw(t, "nsubs")
 			for i := 0; i < ns; i++ {
 				c.Subs = append(c.Subs, SubScript{
-					Kind:    rapid.SampledFrom([]string{"recv-close", "recv-close", "close-now", "handle-fail", "sendlast", "close-twice", "close-elsewhere"}).Draw(t, "kind"),
+					Kind:    rapid.SampledFrom([]string{"recv-close", "recv-close", "close-now", "handle-fail", "sendlast", "close-twice", "close-elsewhere", "churn", "churn-sendlast", "churn-sendlast"}).Draw(t, "kind"),
 					K:       rapid.IntRange(0, 6).Draw(t, "k"),
 					PauseUs: rapid.SampledFrom([]int{0, 0, 50, 500}).Draw(t, "pause"),
 				})
